@@ -180,6 +180,13 @@ static void walker_main(WalkerSpec const &w, int index, int nrep, int sock)
     } else if (cmd[0] == 'Y') {  // save state, binary
       std::vector<unsigned char> b = px->state_binary();
       wr(sock, "V" + std::string(b.begin(), b.end()));
+    } else if (cmd[0] == 'H') {  // what the script command "cv bias a share" does
+      colvarbias *b = px->bias("a");
+      cvm::clear_error();
+      int rc = b ? b->replica_share() : 1;
+      rc |= cvm::get_error();
+      cvm::clear_error();
+      wr(sock, "D" + std::to_string(rc));
     } else if (cmd[0] == 'N') {  // end of run
       int rc = px->end_run();
       wr(sock, "D" + std::to_string(rc));
@@ -325,8 +332,13 @@ struct Controller {
 static const double BINV[2] = {1.2, 1.7};  // grid [1,3] width 0.5: bins 0 and 1
 static const double FRC[2] = {-1.0, 2.0};
 
+static bool g_scripted_share = false;  // sharing is not configured; the script command "cv bias a share" triggers it
 static std::string abf_conf(int freq, bool czar = false)
 {
+  if (g_scripted_share)
+    return std::string("colvar {\n name d\n width 0.5\n lowerBoundary 1.0\n upperBoundary 3.0\n") +
+           (czar ? " extendedLagrangian on\n extendedFluctuation 0.3\n extendedTimeConstant 40.0\n" : "") + " distance {\n group1 { atomNumbers 1 }\n group2 { atomNumbers 2 }\n }\n}\n"
+           "abf {\n name a\n colvars d\n fullSamples 1\n outputFreq 100\n}\n";
   return std::string("colvar {\n name d\n width 0.5\n lowerBoundary 1.0\n upperBoundary 3.0\n") +
          (czar ? " extendedLagrangian on\n extendedFluctuation 0.3\n extendedTimeConstant 40.0\n" : "") + " distance {\n group1 { atomNumbers 1 }\n group2 { atomNumbers 2 }\n }\n}\n"
          "abf {\n name a\n colvars d\n fullSamples 1\n shared on\n sharedFreq " + std::to_string(freq) + "\n outputFreq " + std::to_string(freq) + "\n}\n";
@@ -351,6 +363,7 @@ struct AbfCase {
   std::vector<std::vector<int>> word;  // per walker per step: letter = bin*2 + force
   int bound;            // max deviations from the default order
   int rstep = 0;        // exchange step after which all walkers stop and restart (0 = the first one)
+  bool scripted = false; // sharing triggered by the script command after step `freq` instead of being configured
   bool adaptive = false; // OPES: adaptiveSigma on (every walker measures its own kernel width)
   bool opes = false;    // OPES with multipleReplicas instead of shared ABF (freq = newHillFrequency)
   bool czar = false;    // extended-Lagrangian variable: the CZAR data are gathered on replica 0 when the output is written (end of run)
@@ -386,6 +399,8 @@ static AbfOutcome abf_execute(AbfCase const &c, std::vector<int> const &prefix)
   AbfOutcome out;
   Controller ctl;
   ctl.rendezvous = c.rendezvous;
+  g_scripted_share = c.scripted;
+  std::vector<bool> shared_by_script(c.n, false);
   std::vector<WalkerSpec> specs(c.n);
   for (int i = 0; i < c.n; i++) { specs[i].conf = abf_conf(c.freq, c.czar); specs[i].out_prefix = "abf_w" + std::to_string(i); if (c.czar) specs[i].temperature = 300.0; }
   if (c.opes) for (int i = 0; i < c.n; i++) { specs[i].conf = opes_conf(c.freq, c.adaptive); specs[i].temperature = 300.0; }
@@ -430,7 +445,9 @@ static AbfOutcome abf_execute(AbfCase const &c, std::vector<int> const &prefix)
     for (int i = 0; i < c.n; i++) if (ctl.w[i].st == W_IDLE && ctl.w[i].next_step <= ctl.w[i].last_step) acts.push_back({0, i});
     for (int i = 0; i < c.n; i++) if (ctl.can_deliver(i)) acts.push_back({1, i});
     if (ctl.all_at_barrier()) acts.push_back({2, 0});
-    if (c.czar) for (int i = 0; i < c.n; i++) if (ctl.w[i].st == W_IDLE && ctl.w[i].next_step > ctl.w[i].last_step && !ended[i]) acts.push_back({3, i});
+    if (c.czar) for (int i = 0; i < c.n; i++) if (ctl.w[i].st == W_IDLE && ctl.w[i].next_step > ctl.w[i].last_step && !ended[i] && (!c.scripted || shared_by_script[i])) acts.push_back({3, i});
+    // scripted sharing: every walker calls "cv bias a share" once, after it has completed all its steps and before the end of its run
+    if (c.scripted) for (int i = 0; i < c.n; i++) if (ctl.w[i].st == W_IDLE && ctl.w[i].next_step > ctl.w[i].last_step && !shared_by_script[i]) acts.push_back({4, i});
     if (acts.empty()) {
       bool fin = true;
       for (auto &o : ctl.w) if (!(o.st == W_IDLE && o.next_step > o.last_step)) fin = false;
@@ -456,6 +473,7 @@ static AbfOutcome abf_execute(AbfCase const &c, std::vector<int> const &prefix)
       else ctl.start_step(a.i, s, BINV[letter / 2], FRC[letter % 2]);
     } else if (a.kind == 1) ctl.deliver(a.i);
     else if (a.kind == 3) { ended[a.i] = true; wr(ctl.w[a.i].fd, "N"); ctl.w[a.i].st = W_RUNNING; ctl.pump(a.i); }
+    else if (a.kind == 4) { shared_by_script[a.i] = true; wr(ctl.w[a.i].fd, "H"); ctl.w[a.i].st = W_RUNNING; ctl.pump(a.i); }
     else ctl.release_barrier();
   }
   if (!ctl.fatal.empty() && out.problem.empty()) { out.problem = ctl.fatal; out.sig = "walker-died-or-hung"; }
@@ -780,6 +798,7 @@ int main(int argc, char **argv)
       AbfCase z{2, 5, 2, false, -1, w4, thorough ? 3 : 2}; z.czar = true; abf.push_back(z);
       std::vector<std::vector<int>> wz = {{0, 1, 2, 3, 0, 2, 1}, {3, 2, 0, 1, 1, 0, 3}, {2, 3, 3, 2, 2, 3, 2}, {0, 0, 1, 0, 1, 1, 0}};
       AbfCase z3{3, 4, 2, true, -1, wz, thorough ? 2 : 1}; z3.czar = true; abf.push_back(z3); z3.rendezvous = false; abf.push_back(z3);
+      AbfCase zs{2, 4, 2, false, -1, wz, thorough ? 2 : 1}; zs.czar = true; zs.scripted = true; abf.push_back(zs);
     }
     {
       AbfCase o2{2, 5, 2, false, -1, w4, thorough ? 2 : 1}; o2.opes = true; abf.push_back(o2);
@@ -855,7 +874,7 @@ int main(int argc, char **argv)
     for (size_t j = shard; j < njobs; j += nsh) {
       if (j < abf.size()) {
         AbfCase const &c = abf[j];
-        std::string cj = std::string("{\"part\":\"") + (c.opes ? "OPES multiple walkers" : "shared ABF") + "\",\"walkers\":" + std::to_string(c.n) + ",\"steps\":" + std::to_string(c.L) + ",\"sharedFreq\":" + std::to_string(c.freq) + (c.czar ? ",\"variable\":\"extended-Lagrangian (CZAR gathered at end of run)\"" : "") +
+        std::string cj = std::string("{\"part\":\"") + (c.opes ? "OPES multiple walkers" : "shared ABF") + "\",\"walkers\":" + std::to_string(c.n) + ",\"steps\":" + std::to_string(c.L) + ",\"sharedFreq\":" + std::to_string(c.freq) + (c.czar ? ",\"variable\":\"extended-Lagrangian (CZAR gathered at end of run)\"" : "") + (c.scripted ? ",\"sharing\":\"triggered by cv bias a share\"" : "") +
                          ",\"send\":\"" + (c.rendezvous ? "rendezvous" : "buffered") + "\",\"restart\":\"" + (c.restart_walker < 0 ? "none" : (c.restart_walker == 2 ? "all walkers, binary state" : (c.restart_walker == 3 ? "all walkers, text state without last-exchange record" : "all walkers, text state"))) + "\",\"restart_after_step\":" + std::to_string(c.restart_walker >= 0 ? c.stop_step() : -1) + ",\"deviation_bound\":" + std::to_string(c.bound) + "}";
         bool stop = false;
         long nexec = 0;
